@@ -515,7 +515,8 @@ class Ctx:
                 self.assume(z3.ForAll([k], z3.Implies(z3.Select(has, k), z3.And(*facts)), patterns=[it]))
 
     def resolve_ty(self, ty):
-        if isinstance(ty, TObj) and ty.cls is None:
+        if isinstance(ty, TObj) and (ty.cls is None or self.repo.get(ty.cls_key) is not ty.cls):
+            # shapes are module-level objects of the sidecars: re-resolve when this engine read the repository anew
             ty.cls = self.repo.get(ty.cls_key)
             if not isinstance(ty.cls, ClassInfo):
                 raise EngineError("shape names a class that does not exist: %s" % ty.cls_key)
@@ -630,6 +631,23 @@ class Ctx:
             k = z3.Const("ssk", Z.Val)
             return z3.Exists([k], v.pred(k))
         return True
+
+    def narrow(self, sv):
+        """flow-sensitive narrowing: if the path condition already decides which kind of value an Any/Optional is (after an
+        isinstance / is-None test), give it that shape"""
+        if not isinstance(sv, SV):
+            return sv
+        ty = sv.ty
+        if isinstance(ty, TOpt):
+            if not self.feasible(Z.is_none(sv.t)):
+                return self.typed(sv.t, ty.inner)
+            return sv
+        if not isinstance(ty, TAny):
+            return sv
+        for test, new in ((Z.is_strv, TStr()), (Z.is_numv, TNum()), (Z.is_boolv, TBool()), (Z.is_none, TNone())):
+            if not self.feasible(z3.Not(test(sv.t))):
+                return SV(sv.t, new)
+        return sv
 
     def isa_formula(self, cidt, cls):
         """isa(cid, cls) for a symbolic class id, instantiating the lattice facts against every class already related to cid"""
